@@ -118,4 +118,17 @@ def main() -> int:
 
 
 if __name__ == "__main__":
-    sys.exit(main())
+    try:
+        rc = main()
+    except SystemExit:
+        raise
+    except TimeoutError as exc:   # a worker did not come back in time: never a pass, never a VIOLATION
+        print(f"HARNESS-TIMEOUT: {exc!r}", flush=True)
+        rc = 2
+    except BaseException as exc:  # noqa: BLE001 - harness failure must not look like a verdict
+        import traceback
+
+        traceback.print_exc()
+        print(f"HARNESS-ERROR: {type(exc).__name__}: {exc}", flush=True)
+        rc = 3
+    sys.exit(rc)
